@@ -1,5 +1,6 @@
 """C11 - how distances are supplied never changes the variogram (coordinates vs shared MetricSpace vs
 absolute maxlag -> truncated sparse matrix)."""
+import math
 import numpy as np
 from scipy.spatial.distance import pdist
 import core, gen, vario_common as vc
@@ -123,6 +124,37 @@ def run(ctx, replay=None):
             compare(ctx, case, 'shared MetricSpace used twice', tb, tb2, {'what': 'shared-metricspace'})
             ok1 = compare(ctx, case, 'raw coordinates with absolute maxlag (sparse) vs dense MetricSpace', ta, tb, sig_sparse)
             compare(ctx, case, 'pre-computed truncated MetricSpace vs dense MetricSpace', tc, tb, sig_sparse)
+            # ---- the maximum lag lowered on the living instances (all pairs needed are still stored): same result as a fresh dense one
+            if case['bin_func'] in ('even', 'uniform') and rng.random() < 0.5:
+                m2 = math.floor(case['maxlag'] * 0.75 * 8) / 8.0 + 1.0 / 64
+                if m2 >= 1.0 and np.sum(D <= m2) >= 2:
+                    try:
+                        kw2 = dict(kw, maxlag=m2)
+                        ref = triple(Variogram(MetricSpace(c.copy(), 'euclidean'), v, **kw2))
+                        sig2 = {'what': 'lowered-maxlag-in-place'}
+                        if case['bin_func'] == 'even' and not np.any(D == m2):
+                            sig2 = {'what': 'sparse-maxlag-clipped-to-largest-stored-distance', 'method': 'even'}
+                        for label, inst in (('raw coordinates', Variogram(c, v, **kw)), ('truncated MetricSpace', Variogram(MetricSpace(c.copy(), 'euclidean', max_dist=case['maxlag']), v, **kw))):
+                            _ = inst.experimental
+                            inst.maxlag = m2
+                            compare(ctx, dict(case, maxlag_lowered_to=m2), 'maximum lag lowered in place on a variogram built from %s vs a fresh dense one' % label, triple(inst), ref, sig2)
+                        ctx.tests['lowered_maxlag_histories'] = ctx.tests.get('lowered_maxlag_histories', 0) + 1
+                    except Exception as e:
+                        ctx.count('lowered_maxlag_rejected', type(e).__name__ + ':' + str(e)[:40])
+            # ---- a parametrised metric: truncated vs full MetricSpace (raw coordinates cannot carry the keyword arguments)
+            if case['bin_func'] in ('even', 'uniform') and rng.random() < 0.3:
+                try:
+                    pk = {'p': rng.choice([1, 3])}
+                    Dm = pdist(c, 'minkowski', **pk)
+                    mlm = float(np.sort(Dm)[len(Dm) // 2]) if pk['p'] == 1 else math.floor(float(np.median(Dm)) * 8) / 8.0 + 1.0 / 64
+                    if mlm >= 1.0:
+                        kwm = dict(kw, maxlag=mlm, dist_func='minkowski')
+                        full = triple(Variogram(MetricSpace(c.copy(), 'minkowski', dist_metric_kwargs=dict(pk)), v, **kwm))
+                        trunc = triple(Variogram(MetricSpace(c.copy(), 'minkowski', max_dist=mlm, dist_metric_kwargs=dict(pk)), v, **kwm))
+                        compare(ctx, dict(case, minkowski=pk, maxlag_used=mlm), 'MetricSpace(minkowski, p=%d) with max_dist vs without' % pk['p'], trunc, full, {'what': 'parametrised-metric-truncated'})
+                        ctx.tests['parametrised_metric_runs'] = ctx.tests.get('parametrised_metric_runs', 0) + 1
+                except Exception as e:
+                    ctx.count('parametrised_metric_rejected', type(e).__name__ + ':' + str(e)[:40])
             # ---- history on the shared space: a second variogram changes ITS metric; the first one, recalculated, and a new
             # variogram on the same space still see the space's own distances
             if case['bin_func'] in ('even', 'uniform') and rng.random() < 0.5:
